@@ -412,8 +412,8 @@ func (r *rollbackMitigation) Start() {
 
 	r.reconfigure()
 
+	r.configWatchRunning = true
 	go func() {
-		r.configWatchRunning = true
 		for r.configWatchRunning {
 			time.Sleep(r.config.RollbackMitigation.ConfigWatchInterval)
 			r.configWatch()
